@@ -344,7 +344,7 @@ func c20Replay(c c20Case, checkAll bool) (env *interp.ExecEnv, m *c20Model, bad 
 			defer func() { pan = recover() }()
 			failed, note = c20Do(env, o)
 		}()
-		if !(last || checkAll) {
+		if !(last || checkAll || o.Kind == "observe") {
 			if must == -1 && pan == nil {
 				m.vars = map[string]string{}
 				env.Walk(func(v interp.Var) { m.vars[v.Name] = v.Value })
@@ -438,6 +438,61 @@ func c20Run(w *W) {
 		}
 		w.Count("bfs_roots", 1)
 	}
+	// Second phase — no state merging: the BFS above identifies states by their observable store, which is only
+	// sound if the environment has no hidden state (a cache behind Walk or Get would give two "equal" states
+	// different futures).  Here EVERY history of ≤ 4 (thorough 5) operations over a reduced alphabet is run, with
+	// the observation itself (Walk, Get of every name, Args, Opts) as an operation that can stand anywhere.
+	var red []c20Op
+	red = append(red, c20Op{Kind: "observe"})
+	for _, n := range []string{"a", "b", "A"} {
+		red = append(red, c20Op{Kind: "set", Name: n, Val: "1"}, c20Op{Kind: "unset", Name: n})
+	}
+	red = append(red, c20Op{Kind: "set", Name: "a", Val: "x"}, c20Op{Kind: "set", Name: "IFS", Val: ":"}, c20Op{Kind: "unset", Name: "IFS"})
+	for _, o := range ops {
+		switch {
+		case o.Kind == "expand" && (o.Text == "${a:=w}" || o.Text == "${a}" || o.Text == "${b=w}" || o.Text == "${@%q}" || o.Text == "${1:-w}"):
+			red = append(red, o)
+		case o.Kind == "eval" && o.Name == "a" && (o.Val == "n=1" || o.Val == "n++" || o.Val == "m=n=2" || o.Val == "n=08" || o.Val == "n=0?08:5"):
+			red = append(red, o)
+		}
+	}
+	hdepth := 4
+	if w.thorough() {
+		hdepth = 5
+	}
+	in := c20Init{[]string{"sh", "p", "q"}, 0}
+	cur := make([]c20Op, 0, hdepth+1)
+	var rec func()
+	rec = func() {
+		if len(cur) > 0 && cur[len(cur)-1].Kind != "observe" {
+			h := append(append([]c20Op{}, cur...), c20Op{Kind: "observe"})
+			c := c20Case{in, h}
+			w.Count("transitions", int64(len(h)))
+			w.Count("evaluations", 1)
+			w.Count("unmerged_histories", 1)
+			w.Count("traces_validated_against_impl", 1)
+			if _, _, bad := c20Replay(c, false); bad != "" {
+				w.Violation("", c, bad)
+			}
+		}
+		if len(cur) == hdepth {
+			return
+		}
+		for _, o := range red {
+			if o.Kind == "observe" && (len(cur) == 0 || cur[len(cur)-1].Kind == "observe") {
+				continue
+			}
+			cur = append(cur, o)
+			if len(cur) == 1 && !w.Mine() {
+				cur = cur[:0]
+				continue
+			}
+			rec()
+			cur = cur[:len(cur)-1]
+		}
+	}
+	rec()
+	w.Count("unmerged_alphabet", int64(len(red)))
 }
 
 func init() {
@@ -446,7 +501,7 @@ func init() {
 		level: "model_checking",
 		rule: "explicit-state BFS to depth 4 (quick) / 6 (thorough) from 8 initial environments (Args ∈ {sh; sh p q; 11 positionals; one empty positional} × Opts ∈ {0, nounset}); " +
 			"alphabet ≈ 200 operations: Set/Unset on ordinary, special and positional names, Expand of ${n op w} for 9 operator forms and 10 parameter kinds, pattern removal on $@/$*/$1, Eval of 15 assigning/faulting/short-circuit forms; " +
-			"every transition is taken from every distinct reachable state; distinct_nontrivial = distinct reachable store states other than the initial one",
+			"every transition is taken from every distinct reachable state; second phase without state merging: every history of ≤ 4 (thorough 5) operations over a reduced alphabet of ≈ 20 operations in which the observation (Walk, Get, Args) is itself an operation; distinct_nontrivial = distinct reachable store states other than the initial one",
 		assume: []string{"map model in c20.go; process environment cleared so that NewExecEnv starts from {IFS}",
 			"canonical state = sorted (name,value) of Walk + Args + Opts: Export/ReadOnly flags are not observed by any operation of the alphabet, so merged states have equal futures",
 			"where POSIX and go.sh differ on nounset for plain $n (C13) and for the eager && (C11 known finding) the store effect is resynchronised instead of judged"},
